@@ -195,6 +195,18 @@ func BuildWill(a *ref.Packet) (*mq.Publish, error) {
 	if err := userProps(w, a.WillProps); err != nil {
 		return nil, err
 	}
+	if a.WillExtra&1 != 0 {
+		w.SetTopicAlias(7)
+	}
+	if a.WillExtra&2 != 0 {
+		w.AddSubscriptionID(5)
+	}
+	if a.WillExtra&4 != 0 {
+		w.SetPacketID(9)
+	}
+	if a.WillExtra&8 != 0 {
+		w.SetDuplicate(true)
+	}
 	return w, nil
 }
 
@@ -202,6 +214,20 @@ func BuildWill(a *ref.Packet) (*mq.Publish, error) {
 // and setters only.
 func Build(a *ref.Packet) (mq.Packet, error) {
 	dst := New(int(a.Type))
+	if dst == nil {
+		return nil, fmt.Errorf("%w: packet type %d", ErrNoSetter, a.Type)
+	}
+	if err := apply(dst, a, false); err != nil {
+		return nil, err
+	}
+	return dst, nil
+}
+
+// BuildOnZero applies a's fields to a zero value of the packet type
+// (&mq.Publish{} rather than mq.NewPublish()): a value a program can hold and
+// the constructors never produce.
+func BuildOnZero(a *ref.Packet) (mq.Packet, error) {
+	dst := Zero(int(a.Type))
 	if dst == nil {
 		return nil, fmt.Errorf("%w: packet type %d", ErrNoSetter, a.Type)
 	}
